@@ -8,6 +8,9 @@ d  samples at the requested times, first sample = initial state (driver traces v
 a (added)  on an event hit the reported time is in the frame of the requested (unsigned) grid for every integrator
 b (added)  the direction wrapper evaluates a time-dependent right-hand side at the signed time; its cache key is complete (hv.memo)
 d (added)  only exactly coinciding end points are short-circuited as a zero-length span
+
+d-facade (round 3)  System.propagate and the system service hand the signed end time forward*tf on for all four sign combinations
+b-dispatch (round 3)  C17.d's dispatch / twin-option table re-filed: a direction wrapper never reaches the parametric Hamiltonian kernel
 """
 from __future__ import annotations
 
